@@ -1,0 +1,77 @@
+//go:build verif
+
+// Verification hooks of the work package "plugin" (model M4-core, properties C01/C04 and the later C02, C03, C06,
+// C07, C10).  Thin wrappers around private entry points, compiled only with -tags verif.  Nothing here changes
+// behaviour of the production build.
+package schedulerplugin
+
+import (
+	corev1 "k8s.io/api/core/v1"
+	"tkestack.io/galaxy/pkg/ipam/cloudprovider"
+)
+
+// VerifPluginResync runs one resync pass (resyncPod).  The checklist comes out of a Go map in arbitrary order; if
+// order is non-nil it receives the ips of the checklist and returns the order in which the pass shall process them
+// (ips it does not return keep their place at the end), so that the harness controls this schedule.
+func (p *FloatingIPPlugin) VerifPluginResync(order func(ips []string) []string) error {
+	if order == nil {
+		return p.resyncPod()
+	}
+	meta := &resyncMeta{}
+	if err := p.fetchChecklist(meta); err != nil {
+		return err
+	}
+	ips := make([]string, len(meta.allocatedIPs))
+	byIP := map[string]resyncObj{}
+	for i := range meta.allocatedIPs {
+		ips[i] = meta.allocatedIPs[i].fip.IP.String()
+		byIP[ips[i]] = meta.allocatedIPs[i]
+	}
+	var sorted []resyncObj
+	for _, ip := range order(ips) {
+		if obj, ok := byIP[ip]; ok {
+			sorted = append(sorted, obj)
+			delete(byIP, ip)
+		}
+	}
+	for _, ip := range ips {
+		if obj, ok := byIP[ip]; ok {
+			sorted = append(sorted, obj)
+		}
+	}
+	meta.allocatedIPs = sorted
+	p.resyncAllocatedIPs(meta)
+	return nil
+}
+
+// VerifPluginUnbind runs one unbind for the given pod object (what the event loop does for one release event).
+func (p *FloatingIPPlugin) VerifPluginUnbind(pod *corev1.Pod) error { return p.unbind(pod) }
+
+// VerifPluginSyncPodIPs runs the pod-IP sync pass.
+func (p *FloatingIPPlugin) VerifPluginSyncPodIPs() { p.syncPodIPsIntoDB() }
+
+// VerifPluginSetCloudProvider installs a cloud provider (nil = none).
+func (p *FloatingIPPlugin) VerifPluginSetCloudProvider(c cloudprovider.CloudProvider) {
+	if c == nil {
+		p.cloudProvider = nil
+		return
+	}
+	p.cloudProvider = c
+}
+
+// VerifPluginDrainUnreleased takes every queued release event off the internal channel (nobody else consumes it when
+// Run was not called) and returns the pods and retry counters, oldest first.
+func (p *FloatingIPPlugin) VerifPluginDrainUnreleased() (pods []*corev1.Pod, retries []int) {
+	for {
+		select {
+		case e := <-p.unreleased:
+			pods = append(pods, e.pod)
+			retries = append(retries, e.retryTimes)
+		default:
+			return
+		}
+	}
+}
+
+// VerifPluginUpdateConfigMap runs one configuration reload from the config map (what Run does every minute).
+func (p *FloatingIPPlugin) VerifPluginUpdateConfigMap() (bool, error) { return p.updateConfigMap() }
